@@ -322,8 +322,10 @@ def work(job):
                 if v != "unsat-oracles":
                     continue
                 cause = "plain"
-                if not full and impl_bg is not None and len(impl_bg) < len(unnamed) and (rec.get("replay_ok") or block is None):
-                    # (replay_ok: the traced background is exactly the current assertions for which contains() is false)
+                if not full and impl_bg is not None and (rec.get("replay_ok") or block is None) and \
+                        any(not cc.equivalent_to_some(logic, idecls, u, impl_bg) for u in unnamed):
+                    # (replay_ok: the traced background is exactly the current assertions for which contains() is false;
+                    #  some unnamed assertion of the script is not in it)
                     # the implementation's background misses unnamed assertions whose term carries a name: is the core
                     # irreducible with respect to the background actually used?
                     if impl_result is not None and len(impl_result) == len(core):
@@ -337,7 +339,7 @@ def work(job):
                                     (sx_str(core), "" if full else " with the unnamed assertions", sx_str(core[j])),
                                     dict(element=sx_str(core[j]), implementation_background=[sx_str(x) for x in impl_bg] if impl_bg is not None else None,
                                          unnamed=[sx_str(x) for x in unnamed])))
-        if impl_result is not None and not full and len(impl_bg) != len(unnamed):
+        if impl_result is not None and not full and (len(impl_bg) != len(unnamed) or rec["viol"]):
             own()
     if hook and bi != len(blocks):
         out["ties"].append(("minimize-trace-count", "%d minimisations traced, %d minimising get-unsat-core commands answered" % (len(blocks), bi), dict(script=text)))
@@ -349,7 +351,7 @@ def run(ctx):
     ctx.note("minimisation trace hook (proposed_hooks/C07_minimize.diff) %s" % ("present: exact replay of the inner checks" if hook else
              "absent: twin-run tie only"))
     cc.core_exe()
-    n = 110 if ctx.quick else 1500
+    n = 90 if ctx.quick else 1500
     corpus = sorted(glob.glob(os.path.join(vlib.VERIF, "corpus", "C07", "*.smt2")))
     jobs = [(ctx.seed, p, hook) for p in corpus] + [(ctx.seed, i, hook) for i in range(n)]
     with cf.ThreadPoolExecutor(max_workers=14) as ex:
